@@ -16,14 +16,15 @@ Fixpoint accepted_posts (rs : list (res outcome)) : list post :=
 Definition strip_lot (a : amount) : amount :=
   mkAmt (aq a) (aprec a) (akeep a) (match acomm a with Some c => Some (base_sym c) | None => None end).
 
-(* the balance of one account: its own postings summed in order *)
-Fixpoint account_balance (ord : bool) (acct : str) (ps : list post) (acc : balance) : res balance :=
+(* the balance of one account: its own postings summed in order, as account_t::amount does
+   (value_t +=, starting from a null value) *)
+Fixpoint account_balance (ord : bool) (acct : str) (ps : list post) (acc : value) : res value :=
   match ps with
   | [] => Ok acc
   | p :: ps' =>
       if str_eqb (p_acct p) acct then
         match p_amt p with
-        | Some a => do acc' <- bal_add_amt ord acc (strip_lot a); account_balance ord acct ps' acc'
+        | Some a => do acc' <- add_or_set ord acc (strip_lot a); account_balance ord acct ps' acc'
         | None => account_balance ord acct ps' acc
         end
       else account_balance ord acct ps' acc
@@ -37,9 +38,9 @@ Fixpoint accounts_of (ps : list post) (seen : list str) : list str :=
   end.
 
 Definition journal_balances (ord : bool) (bucket : option str) (xs : list (list post))
-  : list (str * res balance) :=
+  : list (str * res value) :=
   let ps := accepted_posts (run_journal ord bucket [] xs) in
-  map (fun a => (a, account_balance ord a ps [])) (accounts_of ps []).
+  map (fun a => (a, account_balance ord a ps VVoid)) (accounts_of ps []).
 
 (* files: a tree of include directives; the transactions are read depth first *)
 Inductive ftree : Type :=
